@@ -1155,7 +1155,12 @@ def parse_comptime(symbols: list[str], macros: dict = None) -> list[str]:
             index = end
             continue
         if symbol == '!=':
+            # register the macro for the comptime blocks that follow, and
+            # keep the definition in place: assemble defines it again when
+            # it gets there, so that after a redefinition each invocation
+            # expands the definition that precedes it
             advance = define_macro(symbols[index:], macros=macros)
+            new_symbols.extend(symbols[index:index+advance])
             index += advance
             continue
         if symbol not in ("~", "~!"):
